@@ -54,8 +54,9 @@ Definition k_audiocodecid : bytes := [97; 117; 100; 105; 111; 99; 111; 100; 101;
 
 (* RevSdp valid kind: the SDP callback fired; valid = sdp.Pack made a description (RawSdp non-nil), kind = the
    video payload type the parsed description announces (0 none / other, 1 avc, 2 hevc).
-   RevRtp l: the RTP payloads (packet bodies behind the 12-byte header) handed to onRtpPacket, in order *)
-Inductive rtsp_ev : Type := RevSdp (valid : bool) (kind : N) | RevRtp (l : list bytes).
+   RevRtp l: the RTP payloads (packet bodies behind the 12-byte header) handed to onRtpPacket, in order, each with
+   'it is a packet of the video track' (Group.feedRtpPacket looks for a GOP start in those only: lal fix of C06) *)
+Inductive rtsp_ev : Type := RevSdp (valid : bool) (kind : N) | RevRtp (l : list (bool * bytes)).
 
 (* RtpPackerPayloadAvcHevc.PackNal, maxSize 1200: the payloads made of one nal *)
 Definition rtp_max : N := 1200.
@@ -116,7 +117,7 @@ Definition rtsp_audio_packer (s : rtsp_st) : rtsp_st * bool :=
    RtspRemuxerAddSpsPps2KeyFrameFlag (the key-frame rewrite slices Payload[9:]) *)
 Definition s_rtsp_remux9 : N := 119.   (* remux.Rtmp2RtspRemuxer.remux:slice, Payload[9:] *)
 
-Definition rtsp_remux (fx : fixes) (add : bool) (s : rtsp_st) (m : mmsg) : res (rtsp_st * list bytes) :=
+Definition rtsp_remux (fx : fixes) (add : bool) (s : rtsp_st) (m : mmsg) : res (rtsp_st * list (bool * bytes)) :=
   let p := mm_pay m in
   if mm_type m =? t_audio then
     let '(s1, has) := rtsp_audio_packer s in
@@ -126,7 +127,7 @@ Definition rtsp_remux (fx : fixes) (add : bool) (s : rtsp_st) (m : mmsg) : res (
       let raw := (c =? 7) || (c =? 8) || (c =? 13) in
       let* data := (if raw then from s_rtsp_remux p 1 else from s_rtsp_remux p 2) in
       (* the packer was chosen by r.audioPt when it was created: aac wraps the data in an AU header *)
-      Ok (s1, [if match rs_apacker s1 with Some 3 => true | _ => false end then aac_payload data else data])
+      Ok (s1, [(false, if match rs_apacker s1 with Some 3 => true | _ => false end then aac_payload data else data)])
   else if mm_type m =? t_video then
     match rs_sps s with
     | None => Ok (s, [])
@@ -158,11 +159,11 @@ Definition rtsp_remux (fx : fixes) (add : bool) (s : rtsp_st) (m : mmsg) : res (
            else Ok payload) in
         (* the packer was created for r.videoPt: anything but AvPacketPtAvc packs as hevc *)
         let* n := video_payloads (negb (rs_video_pt s =? pt_avc)) payload2 in
-        Ok (s1, n)
+        Ok (s1, map (pair true) n)
     end
   else Ok (s, []).
 
-Fixpoint rtsp_remux_all (fx : fixes) (add : bool) (s : rtsp_st) (l : list mmsg) (acc : list bytes) : res (rtsp_st * list bytes) :=
+Fixpoint rtsp_remux_all (fx : fixes) (add : bool) (s : rtsp_st) (l : list mmsg) (acc : list (bool * bytes)) : res (rtsp_st * list (bool * bytes)) :=
   match l with
   | [] => Ok (s, acc)
   | m :: t => let* (s', n) := rtsp_remux fx add s m in rtsp_remux_all fx add s' t (acc ++ n)
